@@ -12,6 +12,8 @@ PYTHONPATH=$AIUTI_REPO; imports nothing from the harness).
       acquire/release, open, flock, close, sleep) and every API call boundary is appended to
       LOGFILE (O_APPEND, unbuffered) before the next line runs, so the parent knows how far the
       victim got.  If the program ends before N line events: logs 'END <events>' and exits 0.
+      Programs *_helper start a long-lived helper program while inside the critical section; programs
+      refork* os.fork() a long-lived bystander between two uses of the lock, while it is free.
 
   forkhold LOCK ROUNDS
       C02 F-run: ROUNDS times acquire LOCK, os.fork() a child that exits at once (it only inherits
@@ -128,6 +130,12 @@ PROGRAMS = {
     # that keeps every inheritable descriptor) as soon as it is inside the critical section
     'blocking_helper': (dict(), [('acq', dict()), ('rel', dict())]),
     'nested_helper': (dict(reentrant=True), [('acq', dict()), ('acq', dict()), ('rel', dict()), ('rel', dict())]),
+    # a multi-step history of one FileLock object: use the lock once, then, while the lock is FREE, os.fork() a
+    # long-lived bystander child (it shares every open file description the victim has at that moment), then
+    # acquire again.  A victim killed while holding for the second time must not leave the lock behind the bystander.
+    'refork': (dict(), [('acq', dict()), ('rel', dict()), ('fork', None), ('acq', dict()), ('rel', dict())]),
+    'refork_nested': (dict(reentrant=True), [('acq', dict()), ('acq', dict()), ('rel', dict(force=True)), ('fork', None),
+                                             ('acq', dict()), ('rel', dict())]),
 }
 
 
@@ -220,6 +228,18 @@ def crash(lock, program, n, logfile, resume=None):
         # close-on-exec descriptors it had copied at fork time (vfork/posix_spawn return earlier)
         p.stdout.read(1)
 
+    def fork_bystander():
+        # runs OUTSIDE aiuti/filelock.py (tracing off, nothing logged): a forked child that does nothing but
+        # stay alive, holding copies of whatever descriptors this process has open right now
+        pid = real_os.fork()
+        if pid == 0:
+            try:
+                real_time.sleep(6)
+            finally:
+                real_os._exit(0)
+        with open(logfile + '.helper', 'w') as f:
+            f.write(str(pid))
+
     def after_success():
         if helper[0]:
             helper[0] = False
@@ -257,7 +277,8 @@ def crash(lock, program, n, logfile, resume=None):
     sys.settrace(tracer)
     try:
         for kind, kw in steps:
-            log('call')
+            if kind != 'fork':
+                log('call')
             if kind == 'acq':
                 r = lk.acquire(**kw)
                 log('ret ' + ('T' if r else 'F'))
@@ -266,6 +287,12 @@ def crash(lock, program, n, logfile, resume=None):
             elif kind == 'rel':
                 lk.release(**kw)
                 log('ret N')
+            elif kind == 'fork':
+                sys.settrace(None)
+                try:
+                    fork_bystander()
+                finally:
+                    sys.settrace(tracer)
             elif kind == 'with':
                 with lk:
                     log('ret T')
